@@ -27,6 +27,7 @@ type OuterSpec struct {
 	Nonce        string `json:"nonce,omitempty"`
 	Challenge    string `json:"code_challenge,omitempty"`
 	LoginHint    string `json:"login_hint,omitempty"`
+	MaxAge       *uint  `json:"max_age,omitempty"` // nil: the plain query has no max_age
 }
 
 // ObjSpec is the request object. Pointer fields: nil = claim absent.
@@ -43,7 +44,9 @@ type ObjSpec struct {
 	Scope       *string `json:"scope,omitempty"`
 	Challenge   *string `json:"code_challenge,omitempty"`
 	LoginHint   *string `json:"login_hint,omitempty"`
-	WithTimes   bool    `json:"with_times,omitempty"` // iat / exp claims present (irrelevant to the statement)
+	// MaxAge: numeric claim; a pointer to 0 is a PRESENT claim with the value 0 ("re-authenticate now"), different from absence
+	MaxAge    *uint `json:"max_age,omitempty"`
+	WithTimes bool    `json:"with_times,omitempty"` // iat / exp claims present (irrelevant to the statement)
 }
 
 type ReqObjCase struct {
@@ -85,6 +88,7 @@ func genReqObj(t *rapid.T, c *Case) *ReqObjCase {
 		Challenge:    rapid.SampledFrom([]string{"", "plain-challenge-plain-challenge-plain-challenge"}).Draw(t, "challenge"),
 		LoginHint:    rapid.SampledFrom([]string{"", "plain-hint"}).Draw(t, "hint"),
 	}
+	r.Outer.MaxAge = genMaxAge(t, "outer-max-age", []int{-1, -1, -1, 0, 300, 3600})
 	kid := rapid.SampledFrom(sortedKids(X)).Draw(t, "kid")
 	o := &r.Obj
 	*o = ObjSpec{
@@ -112,6 +116,18 @@ func genReqObj(t *rapid.T, c *Case) *ReqObjCase {
 			o.Challenge = sp("object-challenge-object-challenge-object-challenge")
 		case "login_hint":
 			o.LoginHint = sp("obj-hint")
+		}
+	}
+	// numeric parameter: the object's max_age in every relation to the plain one, the zero value included
+	// (absent on either side, 0 against a positive value and vice versa, equal, other positive value)
+	o.MaxAge = genMaxAge(t, "obj-max-age", []int{-1, -1, -1, 0, 0, 0, 1, 600, 3600})
+	// zero values: a parameter that is PRESENT in the object with an empty string (differs from a non-empty plain value)
+	if rapid.IntRange(0, 5).Draw(t, "zero-valued") == 0 {
+		zmask := rapid.IntRange(1, 15).Draw(t, "zero-fields")
+		for i, p := range []**string{&o.State, &o.Nonce, &o.LoginHint, &o.Scope} {
+			if zmask&(1<<i) != 0 {
+				*p = sp("")
+			}
 		}
 	}
 	nmut := rapid.SampledFrom([]int{0, 0, 1, 1, 1, 1, 1, 2, 2}).Draw(t, "nmut")
@@ -188,6 +204,30 @@ func genReqObj(t *rapid.T, c *Case) *ReqObjCase {
 	r.Origin = strings.Join(origin, "+")
 	r.KeyFault = rapid.SampledFrom(keyFaults).Draw(t, "keyfault")
 	return r
+}
+
+// genMaxAge draws a max_age: -1 stands for "absent".
+func genMaxAge(t *rapid.T, label string, from []int) *uint {
+	v := rapid.SampledFrom(from).Draw(t, label)
+	if v < 0 {
+		return nil
+	}
+	u := uint(v)
+	return &u
+}
+
+func maxAgeStr(p *uint) string {
+	if p == nil {
+		return "absent"
+	}
+	return fmt.Sprint(*p)
+}
+
+func sameMaxAge(a, b *uint) bool {
+	if a == nil || b == nil {
+		return a == nil && b == nil
+	}
+	return *a == *b
 }
 
 // outer response types: single-valued and the multi-valued ones of "OAuth 2.0 Multiple Response Type Encoding Practices"
@@ -348,6 +388,9 @@ func objectPayload(o ObjSpec, nowUnix int64) []byte {
 		m["code_challenge_method"] = "S256"
 	}
 	put("login_hint", o.LoginHint)
+	if o.MaxAge != nil {
+		m["max_age"] = *o.MaxAge
+	}
 	if o.Aud != nil {
 		m["aud"] = o.Aud
 	}
@@ -401,14 +444,23 @@ func failedConditions(c Case, r *ReqObjCase, issuer string) (failed, undecided [
 type seenParams struct {
 	RedirectURI, State, Nonce, Challenge, LoginHint string
 	Scopes                                          []string
+	MaxAge                                          *uint
 }
 
-// usedFromObject lists the overriding parameters whose object value (different from the plain value) is in effect.
-func usedFromObject(r *ReqObjCase, s seenParams) (used, plain []string) {
+// usedFromObject lists the overriding parameters whose object value (different from the plain value) is in effect (used),
+// those whose plain value is in effect although the object carries another value (plain), and those the object carries with an
+// empty string (zero: present, but without a value; whether such a member overrides is not decided by the statement).
+func usedFromObject(r *ReqObjCase, s seenParams) (used, plain, zero []string) {
 	o, p := r.Obj, r.Outer
 	chk := func(name string, obj *string, plainV, seen string) {
 		if obj == nil || *obj == plainV {
 			return
+		}
+		if *obj == "" {
+			zero = append(zero, name)
+			if seen == plainV {
+				return
+			}
 		}
 		if seen == *obj {
 			used = append(used, name)
@@ -421,14 +473,24 @@ func usedFromObject(r *ReqObjCase, s seenParams) (used, plain []string) {
 	chk("nonce", o.Nonce, p.Nonce, s.Nonce)
 	chk("code_challenge", o.Challenge, p.Challenge, s.Challenge)
 	chk("login_hint", o.LoginHint, p.LoginHint, s.LoginHint)
-	if o.Scope != nil {
+	if o.Scope != nil && *o.Scope == "" {
+		zero = append(zero, "scope")
+	} else if o.Scope != nil {
 		if contains(s.Scopes, objOnlyScope) {
 			used = append(used, "scope")
 		} else if contains(s.Scopes, plainOnlyScope) {
 			plain = append(plain, "scope")
 		}
 	}
-	return used, plain
+	// max_age is a number: 0 is a value like any other (a present claim), only a missing claim is "absent"
+	if o.MaxAge != nil && !sameMaxAge(o.MaxAge, p.MaxAge) {
+		if sameMaxAge(s.MaxAge, o.MaxAge) {
+			used = append(used, "max_age")
+		} else if sameMaxAge(s.MaxAge, p.MaxAge) {
+			plain = append(plain, "max_age")
+		}
+	}
+	return used, plain, zero
 }
 
 // ---- execution ----------------------------------------------------------------------------------
@@ -490,12 +552,19 @@ func runReqObj(c Case, res *vkit.Result) {
 			Scopes: strings.Split(r.Outer.Scope, " "), ResponseType: oidc.ResponseType(r.Outer.ResponseType), ClientID: X.ID, RedirectURI: r.Outer.RedirectURI,
 			State: r.Outer.State, Nonce: r.Outer.Nonce, LoginHint: r.Outer.LoginHint, CodeChallenge: r.Outer.Challenge, RequestParam: jwt,
 		}
+		if r.Outer.MaxAge != nil {
+			ar.MaxAge = oidc.NewMaxAge(*r.Outer.MaxAge)
+		}
 		if r.Outer.Challenge != "" {
 			ar.CodeChallengeMethod = oidc.CodeChallengeMethodS256
 		}
 		err := op.ParseRequestObject(context.Background(), ar, sut.Provider.Storage(), issuer)
 		// the *oidc.AuthRequest is the function's output: whatever it holds now is what a caller goes on with
 		seen = seenParams{RedirectURI: ar.RedirectURI, State: ar.State, Nonce: ar.Nonce, Challenge: ar.CodeChallenge, LoginHint: ar.LoginHint, Scopes: ar.Scopes}
+		if ar.MaxAge != nil {
+			v := *ar.MaxAge
+			seen.MaxAge = &v
+		}
 		haveSeen = true
 		if err != nil {
 			outcome = "error"
@@ -516,6 +585,9 @@ func runReqObj(c Case, res *vkit.Result) {
 		set("state", r.Outer.State)
 		set("nonce", r.Outer.Nonce)
 		set("login_hint", r.Outer.LoginHint)
+		if r.Outer.MaxAge != nil {
+			q.Set("max_age", fmt.Sprint(*r.Outer.MaxAge))
+		}
 		if r.Outer.Challenge != "" {
 			q.Set("code_challenge", r.Outer.Challenge)
 			q.Set("code_challenge_method", "S256")
@@ -534,6 +606,10 @@ func runReqObj(c Case, res *vkit.Result) {
 				return
 			}
 			seen = seenParams{RedirectURI: snap.RedirectURI, State: snap.State, Nonce: snap.Nonce, LoginHint: snap.LoginHint, Scopes: snap.Scopes}
+			if snap.MaxAge != nil {
+				v := *snap.MaxAge
+				seen.MaxAge = &v
+			}
 			if snap.Challenge != nil {
 				seen.Challenge = snap.Challenge.Challenge
 			}
@@ -557,9 +633,15 @@ func runReqObj(c Case, res *vkit.Result) {
 		}
 	}
 
-	var used, plain []string
+	var used, plain, zero []string
 	if haveSeen {
-		used, plain = usedFromObject(r, seen)
+		used, plain, zero = usedFromObject(r, seen)
+	}
+	if r.Obj.MaxAge != nil || r.Outer.MaxAge != nil {
+		res.Label("ro:max-age:" + maxAgeClass(r.Obj.MaxAge, r.Outer.MaxAge))
+	}
+	if len(zero) > 0 {
+		res.Label("ro:zero-valued-member")
 	}
 	if !valid && !invalid {
 		// nothing fails, but the statement does not say whether these two response types agree: observed, not judged
@@ -581,14 +663,24 @@ func runReqObj(c Case, res *vkit.Result) {
 		switch {
 		case len(used) > 0 && len(plain) == 0:
 			res.Label("ro:valid:honoured")
+			if contains(used, "max_age") {
+				res.Label("ro:valid:honoured:max-age:" + maxAgeClass(r.Obj.MaxAge, r.Outer.MaxAge))
+			}
 		case len(used) > 0:
+			// the library took the object for valid and applied it (some of its values are in effect), yet a member that is
+			// present with another value than the plain one did not override: the effective request mixes overridden and
+			// plain values, i.e. "parameters of a signed request object override the plain query parameters" does not hold
+			// for that member (an empty-string member never gets here: it carries no value, see usedFromObject)
 			res.Label("ro:valid:partly-honoured")
+			res.Fail("C14:reqobj-valid-object-partly-applied:"+strings.Join(plain, "+"), "valid request object (signed by the requesting client %s, iss / aud / client_id / response_type agree) is applied for %v but the plain value stays in effect for %v although the object carries another value (%s; object max_age=%s, plain max_age=%s, effective max_age=%s)",
+				X.ID, used, plain, r.Via, maxAgeStr(r.Obj.MaxAge), maxAgeStr(r.Outer.MaxAge), maxAgeStr(seen.MaxAge))
 		case outcome == "refused" || outcome == "error":
 			res.Label("ro:valid:refused")
 		default:
 			res.Label("ro:valid:plain-used")
 		}
-		// the statement only says when an object may count, not that it has to: nothing is asserted here
+		// the statement does not say that a valid object has to count (refusing it / ignoring it as a whole is not judged);
+		// what it rules out is an object that counts for some of its members only
 	} else {
 		res.Label("ro:invalid")
 		for _, f := range failed {
@@ -615,8 +707,26 @@ func runReqObj(c Case, res *vkit.Result) {
 	}
 	res.Info = map[string]any{"valid": valid, "failed": failed, "undecided": undecided, "outcome": outcome, "object_params_in_effect": used, "plain_params_in_effect": plain, "observed": info}
 	res.NonTrivial = !valid || len(used) > 0
-	res.Key = fmt.Sprintf("reqobj|%s|%s|failed=%v|und=%v|signer=%s|sig=%s|rt=%s/%s|fields=%s|objuri=%s|outcome=%s|used=%v|kf=%s",
-		r.Via, c.Router, failed, undecided, rel, r.Obj.Tok.Sig+"/"+r.Obj.Tok.Mangle, r.Outer.ResponseType, strOr(r.Obj.ResponseType), overrideMask(r.Obj), uriClass(X, r.Obj.RedirectURI), outcome, used, r.KeyFault)
+	res.Key = fmt.Sprintf("reqobj|%s|%s|failed=%v|und=%v|signer=%s|sig=%s|rt=%s/%s|fields=%s|objuri=%s|outcome=%s|used=%v|kf=%s|ma=%s|zero=%v",
+		r.Via, c.Router, failed, undecided, rel, r.Obj.Tok.Sig+"/"+r.Obj.Tok.Mangle, r.Outer.ResponseType, strOr(r.Obj.ResponseType), overrideMask(r.Obj), uriClass(X, r.Obj.RedirectURI), outcome, used, r.KeyFault, maxAgeClass(r.Obj.MaxAge, r.Outer.MaxAge), zero)
+}
+
+// maxAgeClass: relation of the object's max_age to the plain one.
+func maxAgeClass(obj, outer *uint) string {
+	z := func(p *uint) string {
+		switch {
+		case p == nil:
+			return "absent"
+		case *p == 0:
+			return "zero"
+		}
+		return "positive"
+	}
+	c := "obj-" + z(obj) + "/plain-" + z(outer)
+	if obj != nil && outer != nil && *obj == *outer {
+		c += ":equal"
+	}
+	return c
 }
 
 func rtShape(rt string) string {
@@ -638,6 +748,9 @@ func overrideMask(o ObjSpec) string {
 		if f.p != nil {
 			s = append(s, f.n)
 		}
+	}
+	if o.MaxAge != nil {
+		s = append(s, "maxage")
 	}
 	return strings.Join(s, ",")
 }
